@@ -9,11 +9,14 @@ Areas (harness go/cmd/c02):
   f64   `f64op <op> <bits> <bits>`: the binary64 model itself vs the hardware (add sub mul div math.Mod neg
         float64(uint64) float64(int64) uint64(f) int64(f) comparisons Nextafter-toward-zero)
   glue  implementation-side identity oracle: fmt verbs, encoding/json, yaml.v3, MarshalText, Scan, AsBigFloat against
-        math/big renderings of the same value (no Lean model); every rendering of Format is scanned back with the
-        matching verb, %v, Sscan and Fscan: Scan(token) == FromString(token), identical value for self-describing texts
-  scan  fmt.Scanner entry points (Uint128.Scan / Int128.Scan): `u|i fromstring <hex token>` answered by the model's
-        fromString and, on the implementation side, by Sscan / Sscanf(any verb) / Sscanln / Fscan / Fscanf around the
-        token (leading blanks, separators, a following token that must stay readable)
+        math/big renderings of the same value (no Lean model); every rendering of Format (verbs d b o O x X with
+        the flags # + space, zero padding, width, precision; v s and the bad verbs) is scanned back: with the verb it
+        was printed with the identical value must come back; with %v, Sscan, Fscan: Scan(token) == FromString(token),
+        identical value for self-describing texts
+  scan  fmt.Scanner entry points (Uint128.Scan / Int128.Scan): `u|i scan <verb> <hex token>` answered by the model's
+        Conv.*.scan = fromString (scanText token verb) and, on the implementation side, by Sscanf / Fscanf with that
+        verb (and Sscan / Sscanln / Fscan for the verb v) around the token (leading blanks, separators, a following
+        token that must stay readable)
 """
 
 import re
@@ -51,8 +54,9 @@ def run(ctx):
         "are transcribed from go1.24.2 math/big (natconv.go, ratconv.go) as scanners on bytes",
         "String/MarshalText/MarshalJSON/MarshalYAML: decimal digit generation (strconv.FormatUint, big.Int.String) is "
         "modelled by Conv.natDigits; fmt.Formatter, encoding/json and yaml.v3 plumbing is covered by the "
-        "implementation-side oracle `glue` only; fmt.Scanner (Scan) is modelled as `one blank-delimited token, verb "
-        "ignored, FromString of the token` and compared in the area `scan` (tokenisation itself is fmt's)",
+        "implementation-side oracle `glue` only; fmt.Scanner (Scan) is modelled as `one blank-delimited token, "
+        "FromString (scanText token verb)` (Conv.scanText transcribes the unexported helper scanText) and compared in "
+        "the area `scan` (tokenisation itself is fmt's)",
         "the float range constants of package num are read through a `//go:build verif` accessor injected by -overlay "
         "(go/overlay/c02_consts.go) and compared with the model's constants (line `consts`); /repo is not modified",
         "AsFloat64 (sign and one-ulp clauses) is proved for all 2^128 values of both types over GoSem.F64: the three "
@@ -83,18 +87,18 @@ def run(ctx):
         canon = _canon_no_consts
         ctx.assumptions.append("the white-box accessor for the private float constants did not compile against this "
                                "tree; the `consts` line is not compared (black-box build, tag nooverlay)")
-    ctx.diff(area="conv", driver="drv_c02", n={"quick": 300000, "thorough": 6000000},
+    ctx.diff(area="conv", driver="drv_c02", n={"quick": 200000, "thorough": 6000000},
              trivial=lambda l, o: l == "consts" and canon is not None, tagger=_tag, canon=canon,
              theorem="C02.* (model = specification: exact value, truncation, saturation, grammar); impl != model on "
                      "this input")
-    ctx.diff(area="f64", driver="drv_c02", n={"quick": 200000, "thorough": 5000000},
+    ctx.diff(area="f64", driver="drv_c02", n={"quick": 120000, "thorough": 5000000},
              trivial=lambda l, o: False, tagger=_tag,
              theorem="the binary64 model GoSem.F64 differs from the hardware on this operation",
              what="validation of the float model that the C02 float theorems are stated over")
     ctx.diff(area="scan", driver="drv_c02", n={"quick": 60000, "thorough": 1500000},
-             trivial=lambda l, o: False, tagger=lambda l, o: "scan." + ("ok" if o.startswith("ok") else "err"),
-             theorem="C02.fromString_spec / fromString_rejects (model = grammar); Scan reads one blank-delimited token, "
-                     "ignores the verb and must give what FromString gives for that token; impl != model on this input",
+             trivial=lambda l, o: False, tagger=lambda l, o: "scan." + (l.split(" ")[2] if len(l.split(" ")) > 2 else "?") + (".ok" if o.startswith("ok") else ".err"),
+             theorem="C02.scan_reads_back_* / fromString_spec (model = grammar); Scan reads one blank-delimited token and "
+                     "must give FromString (scanText token verb); impl != model on this input",
              what="fmt.Scanner entry points Sscan/Sscanf/Sscanln/Fscan/Fscanf vs the model's fromString of the token")
-    ctx.impl_oracle("glue", n={"quick": 8000, "thorough": 300000},
+    ctx.impl_oracle("glue", n={"quick": 1500, "thorough": 40000},
                     label="fmt/json/yaml/text/Scan/big.Float renderings equal math/big's and load back identically")
